@@ -19,7 +19,7 @@ RULE = ('Dispatch: EVERY operation sequence of depth <= D over a 21-operation al
         'unconnect(callback), unconnect(sender), unconnect(owner of a bound method), reset, '
         'set_silent(T/F), enter/exit silent() (well nested), exit silent() by an exception, 4 emits} on a '
         'fresh EventEmitter, followed by probe emits; plus seeded random histories of length <= 14 over '
-        'the full alphabet (3 callbacks, 2 events, senders S1/S2 with value equality (S2 is falsy) - every other emit comes from an equal but distinct sender object -, single, args/kwargs, a callback that raises - the exception must propagate and leave the emitter usable), a third of them '
+        'the full alphabet (3 callbacks, 2 events, senders S1/S2 with value equality (S2 is falsy) - every other emit comes from an equal but distinct sender object -, single, args/kwargs, a callback that raises - the exception must propagate and leave the emitter usable -, a callback that emits another event from inside the dispatch), a third of them '
         'through the module-level global emitter. Every callback invocation is recorded by the callback '
         'itself (id, sender, args, kwargs) and each emit is compared with a list reference machine. '
         'Progress: EVERY history of depth <= P over {increment, value=0..3, max=0..3, set_complete, '
@@ -81,17 +81,17 @@ class World(object):
                 self.tok = tok
 
             def on_e1(self, sender, *a, **k):
-                me.log.append((self.tok, sender, a, k))
+                me.log.append((self.tok, sender, a, k, 'e1'))
                 return ('ret', self.tok)
 
             def on_e2(self, sender, *a, **k):
-                me.log.append((self.tok, sender, a, k))
+                me.log.append((self.tok, sender, a, k, 'e2'))
                 return ('ret', self.tok)
         self.owners = {'B': Owner('B'), 'C': Owner('C')}
 
         def mk(tok, event):
             def f(sender, *a, **k):
-                me.log.append((tok, sender, a, k))
+                me.log.append((tok, sender, a, k, event))
                 return ('ret', tok)
             f.__name__ = 'on_' + event
             return f
@@ -99,15 +99,26 @@ class World(object):
 
         def mk_raiser(event):
             def raiser(sender, *a, **k):
-                me.log.append(('R', sender, a, k))
+                me.log.append(('R', sender, a, k, event))
                 raise KeyError('callback failure')
             raiser.__name__ = 'on_' + event
             return raiser
         self.funcs[('R', 'e1')] = mk_raiser('e1')
         self.funcs[('R', 'e2')] = mk_raiser('e2')
 
+        def nested(sender, *a, **k):
+            # reentrancy: a callback of e1 that itself emits e2 on the same emitter
+            me.log.append(('N', sender, a, k, 'e1'))
+            try:
+                me.f['emit']('e2', sender)
+            except KeyError:
+                pass
+            return ('ret', 'N')
+        nested.__name__ = 'on_e1'
+        self.funcs[('N', 'e1')] = nested
+
     def cb(self, tok, event):
-        if tok in ('A', 'R'):
+        if tok in ('A', 'R', 'N'):
             return self.funcs[(tok, event)], None
         return getattr(self.owners[tok], 'on_' + event), tok
 
@@ -191,18 +202,31 @@ class World(object):
                 return 'emit raised %r' % r.exc
             if raises and r.ok:
                 return 'the exception of a failing callback was swallowed by emit'
-            got = [(c[0], event) for c in self.log]
-            exp_tok = [(c[0], event) for c in exp]
+            got = [(c[0], c[4]) for c in self.log]
+            exp_tok, nested_pos = [], set()
+            for c in exp:
+                exp_tok.append((c[0], event))
+                if c[0] == 'N':
+                    inner = self.ref.expected_calls('e2', self.S[s], False)
+                    if any(x[0] == 'R' for x in inner):
+                        inner = inner[:[x[0] for x in inner].index('R') + 1]
+                    for x in inner:
+                        nested_pos.add(len(exp_tok))
+                        exp_tok.append((x[0], 'e2'))
             if got != exp_tok:
                 return 'emit(%s, %s%s) called %r, expected %r%s' % (
                     event, s, ', single' if single else '', [g[0] for g in got], [e[0] for e in exp_tok],
                     ' (silenced)' if self.ref.silent else '')
-            for c in self.log:
+            for i_c, c in enumerate(self.log):
+                if i_c in nested_pos:
+                    if c[1] is not sender_obj:
+                        return 'nested emit passed another sender object'
+                    continue
                 if c[1] is not sender_obj or tuple(c[2]) != tuple(args) or c[3] != dict(kwargs):
                     return 'callback %s received sender/args %r %r %r, emitted %r %r' % (
                         c[0], c[1], c[2], c[3], args, kwargs)
             if not self.ref.silent and not raises:
-                rets = [('ret', c[0]) for c in self.log]
+                rets = [('ret', c[0]) for i_c, c in enumerate(self.log) if i_c not in nested_pos]
                 if single:
                     ok = (r.value == rets[0]) if rets else (r.value in ([], None))
                 else:
@@ -260,9 +284,9 @@ def random_ops(rng):
     for _ in range(int(rng.integers(2, 15))):
         k = int(rng.integers(0, 14))
         if k <= 4:
-            tok = 'ABCR'[int(rng.integers(0, 4))] if rng.random() < 0.5 else 'ABC'[int(rng.integers(0, 3))]
-            style = ['name', 'explicit', 'decorator'][int(rng.integers(0, 3))] if tok != 'R' else 'explicit'
-            ops.append(('connect', tok, ['e1', 'e2'][int(rng.integers(0, 2))], style,
+            tok = 'ABCRN'[int(rng.integers(0, 5))] if rng.random() < 0.5 else 'ABC'[int(rng.integers(0, 3))]
+            style = ['name', 'explicit', 'decorator'][int(rng.integers(0, 3))] if tok not in 'RN' else 'explicit'
+            ops.append(('connect', tok, ['e1', 'e2'][int(rng.integers(0, 2))] if tok != 'N' else 'e1', style,
                         [None, None, 'S1', 'S2'][int(rng.integers(0, 4))], bool(rng.integers(0, 3) == 0)))
         elif k == 5:
             items = []
